@@ -32,6 +32,9 @@ const int kKeys = 2;
 
 struct Run;
 Run * g_run = nullptr;
+// feedback for the schedule enumerator: what the last scripted run looked like
+long g_lastSteps = 0;
+int g_lastEffective = 0, g_lastThreads = 0;
 void onVisit(int node);
 
 struct Cb : LedgeredT<2>
@@ -383,9 +386,18 @@ struct Run
 	void run() {
 		const int cfg = prog.params.size() > 0 ? ((prog.params[0] % 4) + 4) % 4 : 0;
 		const int strategy = prog.params.size() > 1 ? ((prog.params[1] % 3) + 3) % 3 : 0;
-		ChoiceSource choice(prog, fnv1a(toText(prog)));
+		// params[3] == 77: scripted schedule (bounded-exhaustive exploration, see h_cq.cpp); params[2] & 1: forced switches
+		// go to the highest runnable thread instead of the lowest
+		const bool scripted = prog.params.size() > 3 && prog.params[3] == 77;
+		Program choiceProg = prog;
+		if(scripted) choiceProg.sched.clear();
+		ChoiceSource choice(scripted ? choiceProg : prog, fnv1a(toText(prog)));
 		installSchedHook();
-		sched.reset(new Sched(choice, strategy, false));
+		sched.reset(new Sched(choice, scripted ? 3 : strategy, false));
+		if(scripted) {
+			sched->scriptHighFirst = (prog.params[2] & 1) != 0;
+			for(size_t i = 0; i + 3 <= prog.sched.size(); i += 3) sched->script.push_back(std::make_pair((long)prog.sched[i] * 256 + prog.sched[i + 1], (int)prog.sched[i + 2]));
+		}
 		// one list (cfg 0, 1) or one dispatcher whose lists are many (cfg 2, 3): only sections over a single object count
 		sched->csGroupOf = cfg < 2 ? &listCsGroup : &dispCsGroup;
 		switch(cfg) {
@@ -419,6 +431,9 @@ struct Run
 		if(! failed && ! sched->csOverlap.empty()) fail("cl.cs.overlap", "two threads inside critical sections over the same container at once: " + sched->csOverlap);
 		for(int k = 0; k < subj->keys() && ! failed; ++k) checkKey(k, prefix[(size_t)k]);
 		subj.reset();
+		g_lastSteps = sched->now();
+		g_lastEffective = sched->scriptEffective;
+		g_lastThreads = (int)sched->threadCount() - 1;
 		sched.reset();
 		if(! failed) {
 			if(ledger().isFlagged()) { failed = true; v.fail("ledger.flag", "C03,C08", ledger().message()); }
@@ -480,8 +495,81 @@ Verdict run(const Program & p, const std::string &)
 	ledger().reset();
 	return v;
 }
+
+// ---------------------------------------------------------------- bounded-exhaustive schedules (see h_cq.cpp)
+Op mk(int kind, int a = 0, int b = 0, int c = 0) { Op o; o.kind = kind; o.a = a; o.b = b; o.c = c; return o; }
+Op thread(std::initializer_list<Op> body) { Op t = mk(T_THREAD); t.body.assign(body.begin(), body.end()); return t; }
+
+std::vector<Program> makeTemplates()
+{
+	std::vector<Program> out;
+	// two callbacks n0, n1 are in the list (key 0) before the threads start
+	const Op voc[10] = { mk(L_APPEND), mk(L_PREPEND), mk(L_INSERT, 0), mk(L_INSERT, 1), mk(L_REMOVE, 0), mk(L_REMOVE, 1), mk(L_OWNS, 0), mk(L_FOREACH), mk(L_INVOKE), mk(L_EMPTY) };
+	int pre = 2;
+	auto add = [&](std::initializer_list<Op> threads) {
+		Program p;
+		for(int i = 0; i < pre; ++i) p.ops.push_back(mk(T_PRE_APPEND));
+		for(const Op & t : threads) p.ops.push_back(t);
+		out.push_back(p);
+	};
+	for(int i = 0; i < 10; ++i) for(int j = i; j < 10; ++j) {
+		if(i >= 6 && j >= 6) continue; // two queries: nothing structural
+		add({ thread({ voc[i] }), thread({ voc[j] }) });
+	}
+	add({ thread({ voc[4] }), thread({ voc[4] }), thread({ voc[8] }) });            // two removals of n0 and an invocation
+	add({ thread({ voc[2] }), thread({ voc[4] }), thread({ voc[7] }) });            // insert before n0, remove n0, forEach
+	add({ thread({ voc[0] }), thread({ voc[1] }), thread({ voc[8] }) });            // append, prepend, invocation
+	add({ thread({ voc[4], voc[5] }), thread({ voc[8] }) });                        // empty the list under an invocation
+	add({ thread({ voc[4], voc[0] }), thread({ voc[3], voc[7] }) });
+	add({ thread({ voc[5], voc[1] }), thread({ voc[2], voc[8] }) });
+	// the same on a list that starts empty (first-node paths), and on a list of one
+	for(pre = 0; pre < 2; ++pre) {
+		for(int i = 0; i < 2; ++i) for(int j = i; j < 2; ++j) add({ thread({ voc[i] }), thread({ voc[j] }) });
+		for(int i = 0; i < 2; ++i) { add({ thread({ voc[i] }), thread({ voc[8] }) }); add({ thread({ voc[i] }), thread({ voc[7] }) }); add({ thread({ voc[i] }), thread({ voc[9] }) }); }
+		add({ thread({ voc[0] }), thread({ voc[1] }), thread({ voc[1] }) });
+	}
+	pre = 1;
+	for(int i = 0; i < 3; ++i) { add({ thread({ voc[4] }), thread({ voc[i] }) }); add({ thread({ voc[4] }), thread({ voc[i] }), thread({ voc[8] }) }); }
+	return out;
+}
+
+std::string enumerate(const std::string &, const std::function<bool (const Program &)> & sink)
+{
+	int K = 1, shard = 0, shards = 1;
+	if(const char * e = getenv("VERIF_ENUM_K")) K = std::max(0, std::min(atoi(e), 3));
+	if(const char * e = getenv("VERIF_ENUM_SHARD")) { if(sscanf(e, "%d/%d", &shard, &shards) != 2 || shards < 1) { shard = 0; shards = 1; } }
+	const std::vector<Program> templates = makeTemplates();
+	long index = 0, runs = 0, pruned = 0;
+	bool stop = false;
+	std::function<void (Program &, std::vector<std::pair<long, int> > &, int)> dfs = [&](Program & p, std::vector<std::pair<long, int> > & pre, int depth) {
+		if(stop) return;
+		p.sched.clear();
+		for(auto & r : pre) { p.sched.push_back((unsigned char)(r.first >> 8)); p.sched.push_back((unsigned char)(r.first & 255)); p.sched.push_back((unsigned char)r.second); }
+		++runs;
+		if(! sink(p)) { stop = true; return; }
+		const long steps = std::min<long>(g_lastSteps, 4000);
+		const int threads = g_lastThreads;
+		if(depth > 0 && g_lastEffective < depth) { ++pruned; return; }
+		if(depth >= K) return;
+		const long from = pre.empty() ? 1 : pre.back().first + 1;
+		for(long s = from; s <= steps && ! stop; ++s) for(int t = 1; t <= threads && ! stop; ++t) {
+			pre.push_back(std::make_pair(s, t));
+			dfs(p, pre, depth + 1);
+			pre.pop_back();
+		}
+	};
+	for(const Program & tpl : templates) for(int cfg = 0; cfg < 4 && ! stop; ++cfg) for(int order = 0; order < 2 && ! stop; ++order) {
+		if(index++ % shards != shard) continue;
+		Program p = tpl;
+		p.params = { cfg, 0, order, 77 };
+		std::vector<std::pair<long, int> > pre;
+		dfs(p, pre, 0);
+	}
+	return std::to_string(templates.size()) + " thread programs over a list of 0, 1 or 2 callbacks x 4 subjects (list with mutex / SpinLock, dispatcher with map / unordered_map) x 2 orders for forced switches, every schedule with <= "
+		+ std::to_string(K) + " preemption(s) (shard " + std::to_string(shard) + "/" + std::to_string(shards) + ": " + std::to_string(runs) + " runs, " + std::to_string(pruned) + " ineffective preemptions pruned)";
+}
 } // namespace
 
 namespace vf {
-const Harness g_harness = { "cl", &grammar, &run, &kindName, nullptr };
+const Harness g_harness = { "cl", &grammar, &run, &kindName, &enumerate };
 }
